@@ -43,7 +43,7 @@ ITEMS = [
     Item(id='from_complex', source=S, locator='impl From<Complex64> for NNum / fn from', ensures=[('value', 'r@ == NumV::Cpx(z)')], props=P7),
     Item(id='usize', source=S, locator='impl NNum / fn usize', ensures=[('value', 'r@ == NumV::Int(x as int)')], props=P7),
     Item(id='u64', source=S, locator='impl NNum / fn u64', ensures=[('value', 'r@ == NumV::Int(x as int)')], props=P7),
-    Item(id='u8', source=S, locator='impl NNum / fn u8', ensures=[('value', 'r@ == NumV::Int(x as int)')], props=P7),
+    Item(id='u8', source=S, locator='impl NNum / fn u8', ensures=[('value', 'r@ == NumV::Int(x as int)'), ('repr', 'r == NNum::Int(NInt::Small(x as i64))')], props=P7),
     Item(id='iverson', source=S, locator='impl NNum / fn iverson', ensures=[('value', 'r@ == NumV::Int(if b { 1int } else { 0int })')], props=P7),
 
     # conversions to the float level
